@@ -65,15 +65,36 @@ Fixpoint ins_by {A} (key : A -> bytes) (x : A) (l : list A) : list A :=
   end.
 Definition sort_by {A} (key : A -> bytes) (l : list A) : list A := fold_right (ins_by key) [] l.
 
-(* following an alias (one level, as os.Stat on the link text does for links made by MakeAlias) *)
+(* os.Stat of a path: aliases are followed (chains too); a chain that does not end is ELOOP *)
+(* does the path run through something that is not a folder? *)
+Definition through_file (w : world) (p : list name) : bool :=
+  existsb (fun k => match w !! (firstn k p) with Some (NFile _) | Some (NInfo _ _ _) => true | _ => false end)
+          (seq 1 (List.length p - 1)).
+Inductive stat_result := Found (at_ : list name) (x : node) | Missing | Loop.
+Fixpoint stat_fuel (fuel : nat) (w : world) (p : list name) : stat_result :=
+  match fuel with
+  | O => Loop
+  | S f => match w !! p with
+           | None => match p with
+                     | [] => Found [] NDir
+                     | _ => if through_file w p then Loop else Missing     (* ENOTDIR is not "does not exist" either *)
+                     end
+           | Some (NLink t) => stat_fuel f w t
+           | Some x => Found p x
+           end
+  end.
+Definition stat (w : world) (p : list name) : stat_result := stat_fuel 40 w p.
 Definition deref (w : world) (x : node) : option node :=
-  match x with NLink t => match w !! t with Some (NLink _) => None | o => o end | _ => Some x end.
+  match x with
+  | NLink t => match stat w t with Found _ y => Some y | _ => None end
+  | _ => Some x
+  end.
 Definition visible_count (w : world) (d : list name) : N :=
   len (List.filter (fun e => negb (ignored (fst e))) (children w d)).
 
 (* the file wrapper's view of a file named n in directory d *)
-Definition file_size (w : world) (p : list name) : N :=
-  match w !! p with Some (NFile b) => len b | _ => 0 end.
+Definition file_size (w : world) (p : list name) : N :=      (* os.Stat follows an alias *)
+  match stat w p with Found _ (NFile b) => len b | _ => 0 end.
 Definition total_size (w : world) (d : list name) (n : name) : N :=
   file_size w (d ++ [n]) + file_size w (d ++ [rsrc_name n]).
 Definition type_creator (w : world) (d : list name) (n : name) (is_dir : bool) : bytes * bytes :=
@@ -95,18 +116,18 @@ Definition row_of (w : world) (d : list name) (e : name * node) : list row :=
       let '(ty, cr) := type_creator w d n false in
       [mk_row (strip_incomplete n) ty cr (total_size w d n)]
   | NLink t =>
-      match deref w x with
-      | None => []                                            (* dangling: skipped *)
-      | Some NDir => [mk_row (strip_incomplete n) FLDR [0;0;0;0] (visible_count w t)]
-      | Some _ => let '(ty, cr) := type_of_name (last t []) in
-                  [mk_row (strip_incomplete n) ty cr (file_size w t)]
+      match stat w t with
+      | Found t' NDir => [mk_row (strip_incomplete n) FLDR [0;0;0;0] (visible_count w t')]
+      | Found _ _ => let '(ty, cr) := type_of_name (last t []) in
+                     [mk_row (strip_incomplete n) ty cr (file_size w t)]
+      | _ => []                                               (* cannot be resolved: left out *)
       end
   end.
 Definition list_dir (w : world) (d : list name) : option (list row) :=
   match d, w !! d with
   | [], _ | _, Some NDir => Some (concat (map (row_of w d) (sort_by fst (children w d))))
-  | _, Some (NLink t) => match w !! t with
-                         | Some NDir => Some (concat (map (row_of w t) (sort_by fst (children w t))))
+  | _, Some (NLink t) => match stat w t with
+                         | Found t' NDir => Some (concat (map (row_of w t') (sort_by fst (children w t'))))
                          | _ => None
                          end
   | _, _ => None
@@ -115,17 +136,33 @@ Definition list_dir (w : world) (d : list name) : option (list row) :=
 (* ---- addressing: ReadPath below the root ---- *)
 Definition resolve (items : list bytes) (fname : bytes) : list name := sub_of items ++ clean_rooted (split_slash fname).
 
+Definition data_file (w : world) (d : list name) (n : name) : option node :=
+  match stat w (d ++ [n]) with
+  | Found _ x => Some x
+  | _ => match stat w (d ++ [incomplete_name n]) with Found _ x => Some x | _ => None end
+  end.
+(* NewFileWrapper fails (and the handler stays silent) only when the path runs into an alias loop *)
+Definition wrapper_fails (w : world) (p : list name) : bool :=
+  match stat w p with Loop => true | _ => false end.
 (* ---- GetFileInfo: (name, type, comment, size or none for folders) ---- *)
-Definition get_info (w : world) (items : list bytes) (fname : bytes) : name * bytes * bytes * option N :=
+Definition get_info (w : world) (items : list bytes) (fname : bytes) : option (name * bytes * bytes * option N) :=
   let p := resolve items fname in
+  if wrapper_fails w p then None else Some (
   let d := parent p in let n := last p [] in
-  let is_dir := match w !! p with Some NDir => true | _ => false end in
-  let exists_ := match w !! p, w !! (d ++ [incomplete_name n]) with None, None => false | _, _ => true end in
+  let is_dir := match stat w p with Found _ NDir => true | _ => false end in
   let '(ty, _) := match w !! (d ++ [info_name n]) with
                   | Some (NInfo ty cr _) => (ty, cr)
-                  | _ => if is_dir then (FLDR, []) else if exists_ then type_of_name n else default_type
+                  | _ => if is_dir then (FLDR, [])
+                         else match stat w p with
+                              | Found _ _ => type_of_name n
+                              | _ => match stat w (d ++ [incomplete_name n]) with
+                                     | Found _ NDir => (FLDR, [])
+                                     | Found _ _ => type_of_name (incomplete_name n)
+                                     | _ => default_type
+                                     end
+                              end
                   end in
-  (n, ty, comment_of w d n, if bytes_eqb ty FLDR then None else Some (total_size w d n)).
+  (n, ty, comment_of w d n, if bytes_eqb ty FLDR then None else Some (total_size w d n))).
 
 (* ---- the group of a file: data, partial data, resource fork, info fork ---- *)
 Definition group (d : list name) (n : name) : list (list name) :=
@@ -135,38 +172,35 @@ Inductive status := Replied | ErrReplied | NoReply.
 
 (* everything below (and including) p *)
 Definition is_prefix (p q : list name) : bool := bool_decide (firstn (List.length p) q = p).
-Definition remove_tree (w : world) (p : list name) : world := filter (fun kv => is_prefix p (fst kv) = false) w.
+Definition remove_tree (w : world) (p : list name) : world := base.filter (fun kv => is_prefix p (fst kv) = false) w.
 Definition move_tree (w : world) (p q : list name) : world :=
-  let moved := kmap (fun k => q ++ skipn (List.length p) k) (filter (fun kv => is_prefix p (fst kv) = true) w) in
+  let moved := kmap (fun k => q ++ skipn (List.length p) k) (base.filter (fun kv => is_prefix p (fst kv) = true) w) in
   moved ∪ remove_tree w p.
 Definition move_key (w : world) (p q : list name) : world :=
   match w !! p with Some x => <[q := x]> (delete p w) | None => w end.
 Definition has_children (w : world) (p : list name) : bool :=
   negb (bool_decide (children w p = [])).
 
-(* os.Rename of one path (file, link or whole folder) onto q; None = the call fails *)
+(* os.Rename of one path (file, link or whole folder) onto q; None = the call fails.  Go's os.Rename refuses an
+   existing FOLDER as the new name (EEXIST) whatever the old name is; otherwise POSIX: a file or link replaces a file
+   or link, a folder cannot replace a file, nothing moves into a missing folder or into itself *)
 Definition os_rename (w : world) (p q : list name) : option world :=
-  match w !! p, w !! (parent q) with
-  | None, _ => None
-  | Some _, None => match q with [_] => (* directly below the root *)
-                                   match w !! p, w !! q with
-                                   | Some NDir, None => Some (move_tree w p q)
-                                   | Some NDir, Some NDir => if has_children w q then None else Some (move_tree (delete q w) p q)
-                                   | Some NDir, Some _ => None
-                                   | Some _, Some NDir => None
-                                   | Some _, _ => Some (move_key w p q)
-                                   | None, _ => None
-                                   end
-                          | _ => None end
-  | Some x, Some NDir =>
-      match x, w !! q with
-      | NDir, None => Some (move_tree w p q)
-      | NDir, Some NDir => if has_children w q then None else Some (move_tree (delete q w) p q)
-      | NDir, Some _ => None
-      | _, Some NDir => None
-      | _, _ => Some (move_key w p q)
+  match w !! p with
+  | None => None
+  | Some x =>
+      match w !! q with
+      | Some NDir => None
+      | tq =>
+          if bool_decide (p = q) then Some w else
+          if is_prefix p q then None else
+          let parent_ok := match parent q with [] => true | pq => match w !! pq with Some NDir => true | _ => false end end in
+          if negb parent_ok then None else
+          match x, tq with
+          | NDir, Some _ => None
+          | NDir, None => Some (move_tree w p q)
+          | _, _ => Some (move_key w p q)
+          end
       end
-  | Some _, Some _ => None
   end.
 (* side files follow if they exist; a missing one is not an error *)
 Definition rename_if_present (w : world) (p q : list name) : world :=
@@ -183,26 +217,38 @@ Definition wrapper_move (w : world) (d : list name) (n : name) (d' : list name) 
   end.
 
 (* ---- the requests ---- *)
-Definition data_file (w : world) (d : list name) (n : name) : option node :=
-  match w !! (d ++ [n]) with
-  | Some x => deref w x
-  | None => match w !! (d ++ [incomplete_name n]) with Some x => deref w x | None => None end
+Definition os_remove (w : world) (q : list name) : option world :=
+  match w !! q with
+  | None => Some w
+  | Some NDir => if has_children w q then None else Some (delete q w)
+  | Some _ => Some (delete q w)
   end.
-
 Definition delete_file (w : world) (items : list bytes) (fname : bytes) : world * status :=
   let p := resolve items fname in let d := parent p in let n := last p [] in
   match p with [] => (w, NoReply) | _ =>
+  if wrapper_fails w p then (w, NoReply) else
   match data_file w d n with
   | None => (w, ErrReplied)
   | Some _ =>
-      let w1 := match w !! p with Some NDir => remove_tree w p | _ => delete p w end in
-      (delete (d ++ [info_name n]) (delete (d ++ [rsrc_name n]) (delete (d ++ [incomplete_name n]) w1)), Replied)
+      let w1 := match w !! p with Some NDir => remove_tree w p | _ => delete p w end in         (* RemoveAll *)
+      (* os.Remove of each side file: a missing one is fine, a non-empty folder of that name stops the request *)
+      match os_remove w1 (d ++ [incomplete_name n]) with
+      | None => (w1, NoReply)
+      | Some w2 => match os_remove w2 (d ++ [rsrc_name n]) with
+                   | None => (w2, NoReply)
+                   | Some w3 => match os_remove w3 (d ++ [info_name n]) with
+                                | None => (w3, NoReply)
+                                | Some w4 => (w4, Replied)
+                                end
+                   end
+      end
   end end.
 
 Definition move_file (w : world) (items : list bytes) (fname : bytes) (newitems : list bytes) : world * status :=
   let p := resolve items fname in let d := parent p in let n := last p [] in
   let d' := sub_of newitems in
   match p with [] => (w, NoReply) | _ =>
+  if wrapper_fails w p then (w, NoReply) else
   match data_file w d n with
   | None => (w, ErrReplied)
   | Some _ => match wrapper_move w d n d' n with Some w' => (w', Replied) | None => (w, NoReply) end
@@ -266,11 +312,11 @@ Definition make_alias (w : world) (items : list bytes) (fname : bytes) (newitems
   end end.
 
 (* download reply: the data fork size announced *)
-Definition download_size (w : world) (items : list bytes) (fname : bytes) : N :=
+Definition download_size (w : world) (items : list bytes) (fname : bytes) : option N :=
   let p := resolve items fname in
-  match w !! p with
-  | Some (NFile b) => len b
-  | Some (NLink t) => file_size w t
-  | Some _ => 0
-  | None => file_size w (parent p ++ [incomplete_name (last p [])])
+  if wrapper_fails w p then None else
+  match stat w p with
+  | Found _ (NFile b) => Some (len b)
+  | Found _ _ => Some 0
+  | _ => Some (file_size w (parent p ++ [incomplete_name (last p [])]))
   end.
